@@ -202,7 +202,11 @@ class CellObject(Points, ABC):
                 if isinstance(child, PropertyGroup):
                     continue
                 if isinstance(child, Data):
-                    if child.name in ["A-B Cell ID", "Transmitter ID"]:
+                    if (child.name == "A-B Cell ID" and hasattr(self, "ab_cell_id")) or (
+                        child.name == "Transmitter ID"
+                        and hasattr(self, "tx_id_property")
+                    ):
+                        # rebuilt by the survey classes that own them
                         continue
 
                     child_mask = mask
